@@ -68,6 +68,25 @@ def cycle_minimums(ck, facts, R):
 
 
 def run(ck, facts, tier):
+    # ------------------------------------------------------------------ COMPLETE-MODE-RESTARTS
+    R = "C03.COMPLETE-MODE-RESTARTS"
+    ck.rule(R, "K3: in SolveState::on_no_strands_left a table that still has strands, none of them eligible under the current clock, and "
+               "is in AnswerMode::Complete never reaches the `cycle with no new answers` clean-up (Table::take_strands / "
+               "clear_strands_after_cycle): from the Complete edge of the test on answer_mode every path leaves the function through "
+               "the switch to Ambiguous mode and a QuantumExceeded restart.  The follow-up strands merge_answer_into_strand enqueues are "
+               "stamped with the current clock - only the restart gives them a turn; clearing instead drops them and their answers")
+    nb2 = need_body(ck, facts, R, "chalk_engine::logic::SolveState::on_no_strands_left")
+    if nb2:
+        cfg = nb2.cfg
+        comp = cfg.variant_edges(lambda tr: tr.get("of", {}).get("kind") == "field" and any(str(f_).endswith("answer_mode") for f_ in tr["of"].get("fields", [])), ["Complete"])
+        ts = cfg.call_blocks("Table::take_strands") + cfg.call_blocks("clear_strands_after_cycle")
+        ck.floor(R, "on_no_strands_left.Complete-edges/clean-up-sites", min(len(comp), len(ts)), 1)
+        leak = [e for e in comp if set(ts) & cfg.reachable(e[1], (), False)]
+        if comp and ts and not leak:
+            ck.ok(R, "on_no_strands_left:Complete-mode-never-clears-strands")
+        else:
+            ck.violation(R, "on_no_strands_left:Complete-mode-never-clears-strands", nb2.where(), "a Complete-mode table with pending strands can reach the "
+                         "cycle clean-up in the same quantum: strands that were only waiting for the next clock tick are discarded")
     cycle_minimums(ck, facts, "C03.CYCLE-MINIMUMS")
     # ------------------------------------------------------------------ GREEN-CUT
     R = "C03.GREEN-CUT"
